@@ -51,6 +51,8 @@ def canon_c(out):
 def oracle(ctx, prog, sched, cl, raw):
     """property oracles on one implementation trace; returns a description of the failure or None"""
     if 'DEADLOCK' in raw or 'STEP LIMIT' in raw or 'ABORT' in raw or 'BUG' in raw: return 'abnormal run: ' + raw[-200:]
+    m = re.search(r'^(\d+) solo \d+ LIMIT', raw, flags=re.M)
+    if m: return 'thread %s running alone does not complete its operation while another thread is suspended inside enqueue / dequeue (between linking a node and advancing the tail the queue must be helped along, not waited for)' % m.group(1)
     hist = oracles.history([re.sub(r'^(\d+) (call|ret) (enq|deq)', r'\1 \2 \3', l) for l in cl], ('enq', 'deq'))
     hist = [(t, op, arg, (None if op == 'enq' else r), c, ri) for (t, op, arg, r, c, ri) in hist]
     for h in hist:
@@ -75,6 +77,10 @@ def two_dummy_cases():
             out.append(('E0E1E2/D/D', '>0' + '1' * k1 + '2' * k2 + '>0>1>0>2'))
     # two dummies in a row with a node enqueued behind them: a slow dequeuer (thread 1) frozen k steps in (it has seen the last node), a complete dequeue appends its
     # dummy, the slow one goes on j steps (appends a second dummy, loses the head exchange), an enqueue completes, then two fresh dequeues, then the slow one ends
+    # a thread suspended at every point of its enqueue / dequeue - in particular between its two compare-and-swaps - while another operation runs alone
+    for prog in ('E0/E1', 'E0/E1D', 'E0E1D/D', 'E0D/E1'):
+        for k in range(0, 24):
+            out.append((prog, '0' * k + '}1}1'))
     for k in range(2, 16):
         for j in range(1, 22, 2):
             out.append(('E0DDD/D/E1', '>0' + '1' * k + '>0' + '1' * j + '>2' + '>0>0' + '1' * 200))
